@@ -753,7 +753,9 @@ pub fn main(opts: &Opts) {
         }
         debug_assert_eq!(Case::parse(&d).as_ref(), Some(c));
         let xml = c.xml();
+        progress(&d);
         let real = canon(&run_real(xml.clone()));
+        progress_idle();
         let evs = tokenize(&xml);
         let (po, uo) = oracles_from_events(&evs);
         sink.corr(&d, format!("fetch cands {cfg} {po} {uo} {evs}"), real.clone());
